@@ -13,6 +13,9 @@ import (
 	"github.com/vedadiyan/genql/vrt"
 )
 
+// Heartbeat, if set, is called once per execution (progress signal for the parent's watchdog).
+var Heartbeat func()
+
 type Stats struct {
 	Execs       int64
 	Transitions int64
@@ -69,6 +72,9 @@ func (e *Explorer) explore(prefix []int32, cost int, exact int) {
 		return
 	}
 	r := e.Run(prefix)
+	if Heartbeat != nil {
+		Heartbeat()
+	}
 	if cost == exact {
 		e.Stats.Execs++
 		e.Stats.Transitions += r.Transitions
